@@ -24,14 +24,14 @@ def cases(tier, seed):
     out = [dict(fn='scores')]
     nmax, kmax, emax = (4, 2, 2) if q else (5, 3, 3)
     for n in range(3, 6):
-        xs = [0, 1, 3, 4, 6][:n]
+        xs = [1, 2, 4, 5, 7][:n]
         for K in sublists(range(n), 1, kmax):
             for ne in range(1, 4):      # the greedy matching needs >= 3 expected points to revisit a knee (A, B, A)
                 if len(K) + ne > n:
                     continue
                 out.append(dict(fn='cm', n=n, xs=xs, K=K, ne=ne))
     n = 3 if q else 4
-    xs = [0, 1, 3, 4][:n]
+    xs = [1, 2, 4, 5][:n]
     for K in sublists(range(n), 1, kmax):
         for ne in range(1, emax + 1):
             if len(K) + ne > n + 1:
